@@ -3,13 +3,14 @@ import ast
 import os
 
 from harness.lib import sx as SX
+from harness.props import c20_translate
 
 ID = "C20"
 COQ_DIR = "C20"
 RUN_MOD = "C20.Run"
 MODEL_TARGETS = ["C20/Run.vo"]
-PROOF_TARGETS = ["C20/Lemmas.vo"]
-PROPS = ["C20/Props.v"]
+PROOF_TARGETS = ["C20/Lemmas.vo", "C20/TransEq.vo"]
+PROPS = ["C20/Props.v", "C20/PropsTranslated.v"]
 ALLOWED_AXIOMS = []
 IMPL_TIMEOUT = 5.0
 COQ_SHARD = 80   # printed observations of long call sequences overflow coqc's stack in bigger files
@@ -99,7 +100,13 @@ def gen_consts(repo):
             f"Definition alphabet : list Z := {SX.cZlist(ord(c) for c in alphabet)}.\n"
             f"Definition short_len : nat := {short_len}%nat.\n"
             f"Definition caught : list err := [{'; '.join(emap[c] for c in caught)}].\n")
-    return {"C20_Consts": text}
+    # the whole module, translated statement by statement (fail closed: raises outside the supported subset);
+    # coq/C20/TransEq.v proves the translated functions equal to the hand model, Run.v evaluates both
+    try:
+        translated = c20_translate.translate(src)
+    except c20_translate.Unsupported as e:
+        raise ExtractError(f"translator (harness/props/c20_translate.py): {e}")
+    return {"C20_Consts": text, "C20_Translated": translated}
 
 
 # ------------------------------------------------------------------ cases
@@ -547,6 +554,11 @@ def coq_case(case, obs):
             return "Seq " + calls
         return f"SeqCmp {calls} {SX.clist(_coq_outcome(op, o['r']) for (op, _), o in zip(case['calls'], obs['seq']))}"
     return f"FromStr {SX.copt(obs['std'], SX.cZ)} {SX.cstr(case['s'])}"
+
+
+def in_model(case, obs):
+    # a call that did not return has no observation to compare (the oracle reports it)
+    return "__hang__" not in obs
 
 
 def _sx_result(op, r):
